@@ -48,10 +48,10 @@ def main():
             m = re.search(r"((?:cesium|aspen|core|x/go|freighter/go|arc/go)/[\w./-]+_test\.go)", head)
         demo_dst = None
         if m:
-            rel = re.sub(r"^/tmp/seed-c\d\d/", "", m.group(1))
+            rel = re.sub(r"^/tmp/seed\d*-c\d\d/", "", m.group(1))
             demo_dst = os.path.join(wt, rel)
         cmd = re.sub(r"^cp\s+\S+\s+\S+\s*&&\s*", "", cmd)
-        cmd = re.sub(r"/tmp/seed-c\d\d", wt, cmd)
+        cmd = re.sub(r"/tmp/seed\d*-c\d\d", wt, cmd)
         if not cmd.startswith("cd "):
             cmd = "cd %s && %s" % (wt, cmd)
         if demo_dst and cmd:
